@@ -142,12 +142,37 @@ impl StaticOrDynamic {
         }
     }
 
-    pub fn replace(mut str: String, variables: &[(String, String)]) -> String {
-        for (name, value) in variables {
-            str = str.replace(format!("@{name}").as_str(), value.as_str())
+    pub fn replace(str: String, variables: &[(String, String)]) -> String {
+        // Single pass: a replaced value is never scanned again, so it can neither complete
+        // a longer name with the text following it nor be replaced itself
+        let mut replaced = String::with_capacity(str.len());
+        let mut rest = str.as_str();
+
+        while let Some(position) = rest.find('@') {
+            replaced.push_str(&rest[..position]);
+            rest = &rest[position + 1..];
+
+            // the longest name wins, so a name never clobbers a longer one
+            let mut variable: Option<&(String, String)> = None;
+
+            for candidate in variables {
+                if rest.starts_with(candidate.0.as_str()) && variable.is_none_or(|current| candidate.0.len() > current.0.len()) {
+                    variable = Some(candidate);
+                }
+            }
+
+            match variable {
+                Some((name, value)) => {
+                    replaced.push_str(value.as_str());
+                    rest = &rest[name.len()..];
+                }
+                None => replaced.push('@'),
+            }
         }
 
-        str
+        replaced.push_str(rest);
+
+        replaced
     }
 
     pub fn compile(&self) -> bool {
